@@ -348,20 +348,25 @@ def dump_one(f: TextIO, data: IOData):
 
     # BASIS
     f.write("$BASIS\n")
-    iatom_last = 0
-    for shell in data.obasis.shells:
-        if shell.ncon != 1:
-            raise RuntimeError("Generalized contractions not supported. Call prepare_dump first.")
-        iatom_new = shell.icenter
-        if iatom_new != iatom_last:
+    # One block per atom, in the order of the atoms, separated by $$ (also for atoms without shells).
+    # The same shell order is applied to the rows of the orbital coefficients below.
+    for iatom in range(data.natom):
+        if iatom > 0:
             f.write("$$\n")
-        angmom = shell.angmoms[0]
-        kind = shell.kinds[0]
-        iatom_last = shell.icenter
-        nbasis = len(CONVENTIONS[(angmom, kind)])
-        f.write(f" {nbasis} {angmom_its(angmom).capitalize():1s} 1.00\n")
-        for exponent, coeff in zip(shell.exponents, shell.coeffs[:, 0]):
-            f.write(f"{exponent:20.10f} {coeff:17.10f}\n")
+        for ishell in _get_shell_order(data.obasis):
+            shell = data.obasis.shells[ishell]
+            if shell.icenter != iatom:
+                continue
+            if shell.ncon != 1:
+                raise RuntimeError(
+                    "Generalized contractions not supported. Call prepare_dump first."
+                )
+            angmom = shell.angmoms[0]
+            kind = shell.kinds[0]
+            nbasis = len(CONVENTIONS[(angmom, kind)])
+            f.write(f" {nbasis} {angmom_its(angmom).capitalize():1s} 1.00\n")
+            for exponent, coeff in zip(shell.exponents, shell.coeffs[:, 0]):
+                f.write(f"{exponent:20.10f} {coeff:17.10f}\n")
     f.write("\n")
     f.write("$END\n")
     f.write("\n")
@@ -399,8 +404,20 @@ def dump_one(f: TextIO, data: IOData):
 
 
 # Defining help dumping functions
+def _get_shell_order(obasis):
+    """Return the (stable) order in which the shells are written: grouped by atom."""
+    return sorted(range(len(obasis.shells)), key=(lambda i: obasis.shells[i].icenter))
+
+
 def _dump_helper_coeffs(f, data, spin=None):
     permutation, signs = convert_conventions(data.obasis, CONVENTIONS)
+    # Reorder the rows like the shells in the $BASIS section.
+    offsets = np.cumsum([0] + [shell.nbasis for shell in data.obasis.shells])
+    row_order = np.concatenate(
+        [np.arange(offsets[i], offsets[i + 1]) for i in _get_shell_order(data.obasis)]
+    )
+    permutation = permutation[row_order]
+    signs = signs[row_order]
     if spin == "a":
         norb = data.mo.norba
         coeff = data.mo.coeffsa[permutation] * signs.reshape(-1, 1)
